@@ -55,7 +55,7 @@ def table_counts(data):
     return struct.unpack(e + "H", data[60:62])[0], struct.unpack(e + "H", data[56:58])[0]
 
 
-def mk(cid, data, kind, lazy, mutated, path=None):
+def mk(cid, data, kind, lazy, mutated, path=None, xlat=None):
     arg = ("@" + path) if path else hx(data)
     shnum, phnum = table_counts(data)
     if shnum * phnum > 1000000:
@@ -76,7 +76,12 @@ def mk(cid, data, kind, lazy, mutated, path=None):
                 lines += ["obssec %d" % i, "getdata %d" % i]
     else:
         lines = ["ctor plain", "load %s %d %s" % (kind, lazy, arg), "allocmax", "obsall", "dump", "validate", "queryall"]
-    return Case(cid, lines, {"size": len(data), "mutated": mutated})
+    if xlat is not None:
+        # an address-translation table is installed before loading: the library then does not know the stream's
+        # size and its range checks against it are off - reads past the end fail in the stream itself
+        lines.insert(1, "xlat " + " ".join("%d %d %d" % t for t in xlat))
+        lines = [l for l in lines if l != "allocmax"]      # the allocation bound is claimed without a table only
+    return Case(cid, lines, {"size": len(data), "mutated": mutated, "xlat": xlat is not None})
 
 
 def bases(rng, tier):
@@ -105,6 +110,19 @@ def generate(rng, tier):
         kind = "str" if i % 2 == 0 else "file"
         lazy = (i // 2) % 2
         cases.append(mk("m%d" % i, mb, kind, lazy, True))
+    # the same kind of images read through an address-translation table (identity over the file, or the file
+    # displaced by a few bytes inside a container): ranges that point past the end are then refused by the stream
+    for i in range(60 if tier == "quick" else 600):
+        im, b = bs[i % len(bs)]
+        # a well-formed image cut short (sizes stay small: with a table installed the library allocates whatever
+        # size a header states), so that section / segment ranges and table entries point past the end of the stream
+        mb = b[:rng.choice([len(b), len(b) - 1, len(b) // 2, rng.randint(min(64, len(b)), len(b))])]
+        if rng.random() < 0.5:
+            cont, table = mb, [(0, len(b) + rng.choice([0, 0, 100]), 0)]
+        else:
+            pad = rng.choice([1, 16, 64])
+            cont, table = rbytes(rng, pad) + mb, [(0, len(b), pad)]
+        cases.append(mk("t%d" % i, cont, "file" if i % 3 else "str", 1 if i % 4 == 0 else 0, True, xlat=table))
     # offset + size wrapping around the field width: size = 2^w - offset + d for every section / segment
     # (a bounds check written as "offset + size > stream_size" passes such values)
     import struct
